@@ -22,7 +22,9 @@ fn main() {
     let _ = tracing_subscriber::fmt().with_max_level(tracing_subscriber::filter::LevelFilter::TRACE).with_writer(std::io::stderr).try_init();
   }
   // Panics are observations, not noise.
-  std::panic::set_hook(Box::new(|_| {}));
+  if std::env::var("NWV_PANICS").is_err() {
+    std::panic::set_hook(Box::new(|_| {}));
+  }
   let input = std::fs::read_to_string(&args[2]).expect("read cases");
   let cases: serde_json::Value = serde_json::from_str(&input).expect("parse cases");
   let out = match args[1].as_str() {
